@@ -62,4 +62,27 @@ MUTANTS = [
                     else:
                         _next_symbol(stack)
                     continue""")]},
+    {"id": "c03-rollback-point-off-by-one", "expect": "fire", "edits": [(L, "                if elem.cur_prod_id < len(elem.prod_rs) - 1:", "                if elem.cur_prod_id <= len(elem.prod_rs) - 1:")]},
+    {"id": "c03-n-rollback-test-rewritten", "expect": "silent", "edits": [(L, "                if elem.cur_prod_id < len(elem.prod_rs) - 1:", "                if elem.cur_prod_id + 1 < len(elem.prod_rs):")]},
+    {"id": "c03-n-rollback-helper", "expect": "silent", "edits": [(L, """            rollback_point = len(parse_stack) - 1
+            while rollback_point >= 0:
+                elem = parse_stack[rollback_point]
+                if elem.cur_prod_id < len(elem.prod_rs) - 1:
+                    # yes, we can try next production on this stack element
+                    break
+                rollback_point -= 1
+""", """            rollback_point = self._find_rollback_point(parse_stack)
+"""), (L, """    def cleanup(self, t_elem: TElement) -> None:
+        \"\"\"Clean up the tree with root in TElement.
+""", """    @staticmethod
+    def _find_rollback_point(parse_stack):
+        for pos in range(len(parse_stack) - 1, -1, -1):
+            elem = parse_stack[pos]
+            if elem.cur_prod_id < len(elem.prod_rs) - 1:
+                return pos
+        return -1
+
+    def cleanup(self, t_elem: TElement) -> None:
+        \"\"\"Clean up the tree with root in TElement.
+""")]},
 ]
